@@ -28,6 +28,7 @@ type Profile struct {
 	BigOffset bool // offsets at indirection boundaries
 	Reclaim   bool // second phase deletes everything
 	Fill      bool // early phase fills the disk
+	Lazy      bool // most sequences do not wait for the background shrinker after every call
 	Steer     map[string]bool
 }
 
@@ -49,6 +50,7 @@ type Gen struct {
 	fillCreate   int
 	fillWrite    int
 	queue        []Op  // operations that must come next
+	qpend        []*pending // what the generator must learn from each queued operation's reply (nil: nothing)
 	unstableFile *gobj // a file with acknowledged unstable data not yet committed
 }
 
@@ -228,14 +230,34 @@ func (g *Gen) nextFill() (Op, bool) {
 	return o, true
 }
 
+func (g *Gen) enq(p *pending, ops ...Op) {
+	for i, o := range ops {
+		g.queue = append(g.queue, o)
+		if i == len(ops)-1 {
+			g.qpend = append(g.qpend, p)
+		} else {
+			g.qpend = append(g.qpend, nil)
+		}
+	}
+}
+
 // Next produces the next operation.
 func (g *Gen) Next() Op {
 	if len(g.queue) > 0 {
 		o := g.queue[0]
 		g.queue = g.queue[1:]
+		var qp *pending
+		if len(g.qpend) > 0 {
+			qp = g.qpend[0]
+			g.qpend = g.qpend[1:]
+		}
 		o.Id = g.id()
 		if o.Proc == "commit" && g.unstableFile != nil {
 			g.pend = &pending{target: g.unstableFile, op: o}
+		}
+		if qp != nil {
+			qp.op = o
+			g.pend = qp
 		}
 		return o
 	}
@@ -304,7 +326,58 @@ func (g *Gen) try(k string) (Op, bool) {
 		if g.rng.Intn(2) == 0 {
 			o = Op{Proc: "write", H: f.sym, Off: 0, Cnt: 50, Stable: 0, Data: DataSpec{Pat: true, Len: 7, Seed: 1}} // count mismatch
 		}
-		g.queue = append(g.queue, Op{Proc: "commit", H: f.sym})
+		g.enq(nil, Op{Proc: "commit", H: f.sym})
+	case "shrinkrace": // a large file cut down (freed in the background) and touched again straight away
+		var f *gobj
+		for _, x := range g.live {
+			if x.kind == 1 && x != g.filler && x.size >= 600*4096 && (f == nil || x.size > f.size) {
+				f = x
+			}
+		}
+		if f == nil {
+			// make one: append a large piece to some file
+			f = g.pick(1)
+			if f == nil || g.wtmax < 300*4096 {
+				return o, false
+			}
+			n := g.wtmax / 4096 * 4096
+			o = Op{Proc: "write", H: f.sym, Off: (f.size + 4095) / 4096 * 4096, Cnt: n, Stable: 2, Data: DataSpec{Pat: true, Len: n, Seed: uint64(g.rng.Intn(250))}}
+			g.pend = &pending{target: f}
+			break
+		}
+		nsz := uint64(g.rng.Intn(12)) * 4096
+		if g.rng.Intn(3) == 0 {
+			nsz += uint64(g.rng.Intn(4096))
+		}
+		o = Op{Proc: "setattr", H: f.sym, HasSize: true, Size: nsz}
+		g.pend = &pending{target: f}
+		switch g.rng.Intn(6) {
+		case 0, 1:
+			g.enq(&pending{parent: f.parent, target: f}, Op{Proc: "remove", H: f.parent.sym, Name: f.name})
+		case 2:
+			g.enq(&pending{target: f}, Op{Proc: "setattr", H: f.sym, HasSize: true, Size: nsz / 2})
+		case 3:
+			g.enq(&pending{target: f}, Op{Proc: "write", H: f.sym, Off: nsz + 3*4096, Cnt: 5000, Stable: 2, Data: DataSpec{Pat: true, Len: 5000, Seed: 7}})
+			g.enq(nil, Op{Proc: "read", H: f.sym, Off: 0, Cnt: nsz + 6*4096})
+		case 4:
+			// another file renamed over it
+			var other *gobj
+			for _, x := range g.live {
+				if x.kind == 1 && x != f && x != g.filler {
+					other = x
+					break
+				}
+			}
+			if other != nil {
+				g.enq(&pending{parent: other.parent, target: other, dst: f.parent}, Op{Proc: "rename", H: other.parent.sym, Name: other.name, H2: f.parent.sym, Name2: f.name})
+			}
+		default:
+			g.enq(nil, Op{Proc: "read", H: f.sym, Off: 0, Cnt: nsz + 8192})
+		}
+		if g.rng.Intn(2) == 0 {
+			// the freed inode number is taken again at once
+			g.enq(&pending{parent: g.root}, Op{Proc: "create", H: "root", Name: g.newName(g.root)})
+		}
 	case "selfmove": // a directory renamed into itself onto an existing name, or onto "." / ".." (must be refused)
 		var d *gobj
 		for _, x := range g.live {
@@ -617,7 +690,7 @@ func (g *Gen) Observe(o Op, r Reply) {
 			}
 		}
 		if other != nil && g.filler.size >= 4*4096 {
-			g.queue = append(g.queue,
+			g.enq(nil,
 				// zero data: if the block is (wrongly) also used as an index block it reads as "no pointers"
 				Op{Proc: "write", H: other.sym, Off: (other.size + 4095) / 4096 * 4096, Cnt: 4096, Stable: 2, Data: DataSpec{Lit: make([]byte, 4096)}},
 				Op{Proc: "setattr", H: g.filler.sym, HasSize: true, Size: (g.filler.size/4096 - 3) * 4096},
